@@ -146,7 +146,8 @@ int detect_alphabet(struct msa* msa)
         double DNA[128];
         double protein[128];
         char DNA_letters[12]= "acgtunACGTUN";
-        char protein_letters[40] = "acdefghiklmnpqrstvwyACDEFGHIKLMNPQRSTVWY";
+        /* U (selenocysteine) is a residue the protein alphabets accept, see alphabet.c */
+        char protein_letters[42] = "acdefghiklmnpqrstuvwyACDEFGHIKLMNPQRSTUVWY";
 
         double dna_prob;
         double prot_prob;
@@ -155,15 +156,15 @@ int detect_alphabet(struct msa* msa)
 
         for(i = 0; i < 128;i++){
                 DNA[i] = log(0.0001 * 1.0 / 116.0);
-                protein[i] = log(0.0001 * 1.0 / 88.0);
+                protein[i] = log(0.0001 * 1.0 / 86.0);
         }
 
         for(i = 0 ; i < 12;i++){
                 DNA[(int) DNA_letters[i]] = log(0.9999 * 1.0 / 12.0);
         }
 
-        for(i = 0 ; i < 40;i++){
-                protein[(int) protein_letters[i]] = log(0.9999 * 1.0 / 40.0);
+        for(i = 0 ; i < 42;i++){
+                protein[(int) protein_letters[i]] = log(0.9999 * 1.0 / 42.0);
         }
         /* dna_prob = 0.0; */
         /* prot_prob = 0.0; */
